@@ -2,6 +2,7 @@ package main
 
 import (
 	"bytes"
+	"encoding/binary"
 	"fmt"
 	"io"
 
@@ -25,10 +26,13 @@ const (
 	rResetA
 	rResetB
 	rResetC
+	rResetD // a valid frame with dependent blocks (leaves a 64 KiB history in the Reader)
+	rResetE // invalid on its own: dependent blocks, the first block's match reaches before the start of the frame
+	rResetF // the same with independent blocks
 	numROps
 )
 
-var rOpNames = []string{"Apply(Concurrency)", "Read(0)", "Read(100)", "Read(70000)", "ReadUntilEOF", "WriteTo", "Size", "Reset(frameA)", "Reset(legacyB)", "Reset(checksummedC)"}
+var rOpNames = []string{"Apply(Concurrency)", "Read(0)", "Read(100)", "Read(70000)", "ReadUntilEOF", "WriteTo", "Size", "Reset(frameA)", "Reset(legacyB)", "Reset(checksummedC)", "Reset(linkedD)", "Reset(invalidLinkedE)", "Reset(invalidF)"}
 
 type rFrame struct {
 	name    string
@@ -36,6 +40,7 @@ type rFrame struct {
 	content []byte
 	size    uint64
 	legacy  bool
+	invalid bool // no Reader may deliver a byte of it or end cleanly (a new Reader returns an error)
 }
 
 var c17Frames []rFrame
@@ -60,7 +65,28 @@ func buildReaderFrames(c *Ctx) []rFrame {
 	a := mk("A", wcfg{bs: lz4.Block64Kb, cc: true, size: 300, conc: 1}, []wstep{{data: g.Bytes(100), flush: true}, {data: gen.Text(g, c.Repo, 100), flush: true}, {data: runsData(g, 100)}})
 	b := mk("B", wcfg{bs: lz4.Block64Kb, legacy: true, conc: 1}, []wstep{{data: gen.Text(g, c.Repo, 2500)}})
 	cc := mk("C", wcfg{bs: lz4.Block64Kb, bc: true, cc: true, conc: 1}, []wstep{{data: append(mixData(g, 3*65536), g.Bytes(333)...)}})
-	return []rFrame{a, b, cc}
+	// D: dependent blocks from the independent encoder
+	dContent, dFrame, _ := ref.EncodeLinkedFrame(g, ref.LinkedOpts{BSCode: 4, Total: 3000, ContentChecksum: true, SmallBlocks: true, RawPercent: 20})
+	if pf, err := ref.ParseFrame(dFrame, ref.ParseOpts{EnforceBlockMax: true}); err != nil || !bytes.Equal(pf.Content, dContent) {
+		fatal("reference linked frame does not parse: %v", err)
+	}
+	d := rFrame{name: "D", frame: dFrame, content: dContent}
+	// E / F: one block "1 literal, match offset 100 length 20, 5 literals": the match reaches before the start of
+	// the frame, which only data left over from an earlier stream could satisfy
+	bad := func(name string, flg byte) rFrame {
+		f := binary.LittleEndian.AppendUint32(nil, ref.MagicFrame)
+		f = append(f, flg, 0x40)
+		f = append(f, ref.HeaderChecksum(f[4:6]))
+		blk := []byte{0x1F, 'a', 100, 0, 1, 0x50, 'v', 'w', 'x', 'y', 'z'}
+		f = binary.LittleEndian.AppendUint32(f, uint32(len(blk)))
+		f = append(f, blk...)
+		f = append(f, 0, 0, 0, 0)
+		if _, err := ref.ParseFrame(f, ref.ParseOpts{}); err == nil {
+			fatal("reference parser accepts the invalid frame %s", name)
+		}
+		return rFrame{name: name, frame: f, invalid: true}
+	}
+	return []rFrame{a, b, cc, d, bad("E", 0x40), bad("F", 0x60)}
 }
 
 type rEpoch struct {
@@ -166,6 +192,15 @@ func runReaderSeq(c *Ctx, i int64, seq []int, conc bool, trailing bool) {
 			ep.failed = true
 			return true
 		}
+		if ep.fr.invalid && !ep.failed {
+			// Reset makes the object indistinguishable from a new one: a new Reader rejects this frame
+			if n > 0 || err == nil || err == io.EOF {
+				c.Violation(key("reset-differs-from-new/invalid-frame-accepted"), fmt.Sprintf("%s on a frame whose first match reaches before the start of the frame returned (%d, %v); a new Reader returns an error and no data: bytes left over from the previous stream were used [%s]", what, n, err, seqString(rOpNames, seq)), det())
+			}
+			c.Count("invalid_frame_reads_checked", 1)
+			ep.failed = true
+			return true
+		}
 		if ep.eof && !ep.failed {
 			// clause (f)
 			if n != 0 || err != io.EOF {
@@ -202,7 +237,7 @@ func runReaderSeq(c *Ctx, i int64, seq []int, conc bool, trailing bool) {
 			break
 		}
 		tag := ""
-		if conc && (op == rResetA || op == rResetB || op == rResetC) && ep.started && !ep.eof {
+		if conc && op >= rResetA && op <= rResetF && ep.started && !ep.eof {
 			tag = "reset-midstream/concurrent"
 		}
 		c.Tag(tag)
@@ -260,6 +295,14 @@ func runReaderSeq(c *Ctx, i int64, seq []int, conc bool, trailing bool) {
 				break
 			}
 			results = append(results, fmt.Sprintf("WriteTo=(%d,%v)", n, err))
+			if ep.fr.invalid && !ep.failed {
+				if out.Len() > 0 || err == nil {
+					c.Violation(key("reset-differs-from-new/invalid-frame-accepted"), fmt.Sprintf("WriteTo on a frame whose first match reaches before the start of the frame returned (%d, %v) and wrote %d bytes; a new Reader returns an error and no data [%s]", n, err, out.Len(), seqString(rOpNames, seq)), det())
+				}
+				c.Count("invalid_frame_reads_checked", 1)
+				ep.failed = true
+				break
+			}
 			if ep.eof && !ep.failed && ep.src.Pos != pos0 {
 				c.Violation(key("read-after-end-of-stream/consumes-source"), fmt.Sprintf("WriteTo after the end of the stream consumed %d more source bytes", ep.src.Pos-pos0), det())
 			}
@@ -289,10 +332,10 @@ func runReaderSeq(c *Ctx, i int64, seq []int, conc bool, trailing bool) {
 			var sz int
 			guard("Reader.Size", func() { sz = r.Size() })
 			results = append(results, fmt.Sprintf("Size=%d", sz))
-			if ep.started && !ep.failed && uint64(sz) != ep.fr.size {
+			if ep.started && !ep.failed && !ep.fr.invalid && uint64(sz) != ep.fr.size {
 				c.Violation(key("size-wrong"), fmt.Sprintf("Size() = %d after the header was read; the frame says %d [%s]", sz, ep.fr.size, seqString(rOpNames, seq)), det())
 			}
-		case rResetA, rResetB, rResetC:
+		case rResetA, rResetB, rResetC, rResetD, rResetE, rResetF:
 			fr := &c17Frames[op-rResetA]
 			midstream := ep.started && !ep.eof
 			if ep.started && ep.fr.name == "C" {
@@ -335,7 +378,7 @@ func rShapeOf(seq []int) string {
 			b = append(b, '+')
 			break
 		}
-		b = append(b, "ArrrrWSxxx"[o])
+		b = append(b, "ArrrrWSxxxdee"[o])
 	}
 	return string(b)
 }
